@@ -5,9 +5,9 @@ from mv import cxx2c
 
 S_CPP = 'util/String.cpp'
 TU_CPP = '#include "util/String.cpp"\n'
-FOLLOW = ('String::', 'status_t', 'muscleMin', 'muscleMax', 'muscleSwap', 'StringData', 'NextPowerOfTwo', 'muscleClamp')
+FOLLOW = ('String::', 'status_t', 'muscleMin', 'muscleMax', 'muscleSwap', 'StringData', 'NextPowerOfTwo', 'muscleClamp', 'PODSwapper', 'autochoose_swapper')
 WANT = ['SetFromString', 'SetCstr', 'operator+=', 'operator-=', 'EnsureBufferSize', 'ClearAndFlush', 'Clear', 'TruncateToLength', 'TruncateChars',
-        'SwapContents', 'LastIndexOf', 'IndexOf', 'Length', 'Cstr', 'operator==', 'GetNextBufferSize', 'Equals']
+        'SwapContents', 'LastIndexOf', 'IndexOf', 'Length', 'Cstr', 'operator==', 'GetNextBufferSize', 'Equals', 'Reverse', 'Replace']
 _cache = {}
 END = '__CPROVER_assert(0, "MV_CANARY: end of harness reachable");'
 GH = 'unsigned int a_, b_, c_, d_; char e_, f_, g_; mv_k = a_; mv_j = b_; mv_len0 = c_; mv_len1 = d_; mv_c0 = e_; mv_c1 = f_; mv_d0 = g_;'
@@ -25,6 +25,11 @@ JOBS = [
     ('s_Clear', 'MV_VARIANT_CLEAR', 'S_Clear', '_ZN6muscle6String5ClearEv', 'S *t;', 't'),
     ('s_ClearAndFlush', 'MV_VARIANT_CLEAR', 'S_Clear', '_ZN6muscle6String13ClearAndFlushEv', 'S *t;', 't'),
     ('s_EnsureBufferSize', 'MV_VARIANT_ENSURE', 'S_EnsureBufferSize', '_ZN6muscle6String16EnsureBufferSizeEjbb', 'S *t; unsigned int n; _Bool r; _Bool s;', 't, n, r, s'),
+    ('s_SetFromString', 'MV_VARIANT_SETFROMSTRING', 'S_SetFromString', '_ZN6muscle6String13SetFromStringERKS0_jj', 'S *t; S *o; unsigned int a; unsigned int b;', 't, o, a, b'),
+    ('s_SetFromString_self', 'MV_VARIANT_SETFROMSTRING_SELF', 'S_SetFromString', '_ZN6muscle6String13SetFromStringERKS0_jj', 'S *t; unsigned int a; unsigned int b;', 't, t, a, b'),
+    ('s_Reverse', 'MV_VARIANT_REVERSE', 'S_Reverse', '_ZN6muscle6String7ReverseEv', 'S *t;', 't'),
+    ('s_Replace_char_inline', 'MV_VARIANT_REPLACE_CHAR MV_ONLY_SHORT', 'S_Replace_char', '_ZN6muscle6String7ReplaceEccjj', 'S *t; char a; char b; unsigned int n; unsigned int f;', 't, a, b, n, f'),
+    ('s_Replace_char', 'MV_VARIANT_REPLACE_CHAR', 'S_Replace_char', '_ZN6muscle6String7ReplaceEccjj', 'S *t; char a; char b; unsigned int n; unsigned int f;', 't, a, b, n, f'),
     ('s_eq', 'MV_VARIANT_EQ', 'S_eq', '_ZNK6muscle6StringeqERKS0_', 'S *t; S *o;', 't, o'),
 ]
 
@@ -42,7 +47,7 @@ static void *mv_memmove(void *dst, const void *src, unsigned long n)
 }
 #define memmove mv_memmove
 '''
-BYTE_MEMMOVE = ('s_append_self', 's_append_self_inline', 's_remove_char', 's_remove_char_inline')
+BYTE_MEMMOVE = ('s_append_self', 's_append_self_inline', 's_remove_char', 's_remove_char_inline', 's_SetFromString', 's_SetFromString_self')
 
 
 def lower():
@@ -57,6 +62,8 @@ def lower():
             qt = r['type']['qualType']
             if r['name'] == 'operator+=' and 'char *' in qt:
                 continue        # builds a temporary String (non-trivial destructor inside an expression): not lowered
+            if r['name'] == 'Replace' and not qt.startswith('uint32 (char, char'):
+                continue        # only the (char, char, maxCount, fromIndex) overload is under contract
             roots.append(r)
         if len(roots) < 20:
             raise cxx2c.Unsupported('only %d String methods found: extraction broke' % len(roots))
@@ -73,9 +80,9 @@ def jobs(tier):
     lowered = set(L.fname(L.byid[f]) for f in L.order)
     contracts = open(os.path.join(VERIF, 'contracts/string.h')).read()
     J = []
-    SLOW = ()
+    SLOW = ('s_Replace_char', 's_Replace_char_inline')   # contract written (contracts/string.h); > 15 min even for inline strings (pointer walk from a symbolic offset): NOT registered
     # with CBMC's own memmove model the overlapping-move jobs needed > 25 min each; with the byte-loop model 1-6 min
-    THOROUGH_ONLY = ('s_append', 's_append_self_inline', 's_remove_char_inline')   # s_append: 10 min; the *_inline jobs are sub-cases of s_append_self / s_remove_char
+    THOROUGH_ONLY = ('s_append', 's_append_self_inline', 's_remove_char_inline', 's_SetFromString')   # s_append: 10 min; the *_inline jobs are sub-cases of s_append_self / s_remove_char
     for name, var, alias, mangled, decls, args in JOBS:
         if name in SLOW and not os.environ.get('MV_SLOW'):
             continue
@@ -104,8 +111,8 @@ def meta(tier):
         assumed_contracts=['String::LastIndexOf(char) (flat-memory idiom `while(--p >= s)`; assumed to return the documented result)'],
         assumptions=['malloc/realloc may fail (NULL) and otherwise return fresh memory', 'x86-64 little-endian layout of the String union (the lowered union has the field order clang reports)', 'single thread'],
         dropped=['_smallBuffer[i] lowered as pointer arithmetic (the code deliberately writes _smallBuffer[15], which aliases the free-bytes counter)', 'logging lowered to no-ops', 'MASSERT lowered to an assertion obligation'],
-        not_lowered=['operator+=(const char *) (temporary String inside an expression)', 'Flatten/Unflatten (DataFlattener by value)', 'Arg(), numeric parsing, Replace with Hashtable, case mapping, Pad/Trim, Substring family'],
-        explanation='Each listed String operation is enforced against: representation invariant preserved (always NUL-terminated in both representations), view\' = ideal result at a ghost index, '
+        not_lowered=['Replace(char, char, ...) has a contract but exceeds the solver budget and is not run', 'operator+=(const char *) (temporary String inside an expression)', 'Flatten/Unflatten (DataFlattener by value)', 'Arg(), numeric parsing, Replace with Hashtable, case mapping, Pad/Trim, Substring family'],
+        explanation='Each listed String operation (append incl. self-append, append/remove char, SetCstr, SetFromString incl. substring-of-self, Reverse, Truncate, Clear, EnsureBufferSize, ==) is enforced against: representation invariant preserved (always NUL-terminated in both representations), view\' = ideal result at a ghost index, '
                     'allocation failure leaves the value unchanged, the self-aliasing append gives the same result as with a separate copy. Bounded by heap-block size.',
         extra_coverage=dict(functions_lowered=len(L.order), statements_lowered=sum(L.stats.values())),
     )
